@@ -2,6 +2,7 @@ import StepModel.ExpressDiagLemmas
 import StepModel.ExpressResolveLemmas
 import StepModel.ExpressLexLemmas
 import StepModel.Generated.ReportSites
+import StepModel.ExpressBlame
 /-!
 # C20 — diagnostics name the construct that is actually wrong; `-w` / `-i` are local
 
@@ -378,5 +379,104 @@ example : fits (parseFmt (formatOf LibErrors.BAD_IDENTIFIER)) [.str "_abc".toLis
 example : ∃ ov, configure true [⟨.w, "downcast"⟩] = .ok ov := by
   simp [configure, applySwitches, setWarning]
   exact ⟨_, rfl⟩
+
+/-! ## who is blamed: the construct a diagnostic names really is the faulty one
+
+`C20_semantic_quotes_offender` says the printed text is the format with the model's arguments; the theorems below say what those
+arguments are: a name (and line) of the input that violates the well-formedness condition of the check — for every "undefined X"
+class and the structural checks of the declaration-level model. -/
+
+open Resolve in
+/-- UNDEFINED_TYPE / NOT_A_TYPE quote the name at the core of the reference, on its line, and that name denotes no type -/
+theorem C20_blame_undefined_type (p : String) (env : Env) (s : Schema) (t : TypeRef) (d : Diag) (h : d ∈ typeRefDiags p env s t) :
+    ∃ n l, t.coreName = some (n, l) ∧ ¬ DenotesType env s n ∧ d.line = l ∧ d.args.head? = some (sArg n) :=
+  typeRef_blames p env s t d h
+
+open Resolve in
+/-- UNKNOWN_SUPERTYPE / SUPERTYPE_RESOLVE / UNKNOWN_SUBTYPE / SUBTYPE_RESOLVE quote a listed name that is no entity -/
+theorem C20_blame_super_sub (p : String) (env : Env) (s : Schema) (e : Entity) (d : Diag) (h : d ∈ superSubDiags p env s e) :
+    (∃ x ∈ e.supers, isEnt env s x.1 = false ∧ d.line = x.2 ∧ d.args.head? = some (sArg x.1)) ∨
+    (∃ n ∈ e.subs, isEnt env s n = false ∧ d.line = e.line ∧ d.args.head? = some (sArg n)) :=
+  superSub_blames p env s e d h
+
+open Resolve in
+/-- MISSING_SUPERTYPE quotes (entity, subtype) for a subtype that really does not list the entity, on the subtype's line -/
+theorem C20_blame_missing_supertype (p : String) (s : Schema) (e : Entity) (d : Diag) (h : d ∈ missingSuperDiags p s e) :
+    ∃ sub ∈ subtypesOf s e, ∃ se, findEntity s sub = some se ∧ e.name ∉ supersOf s se ∧
+      d.line = se.line ∧ d.args = [sArg e.name, sArg se.name] :=
+  missingSuper_blames p s e d h
+
+open Resolve in
+/-- UNDEFINED_FUNC quotes the called name, which is neither declared nor built in (any expression context) -/
+theorem C20_blame_undefined_function (p : String) (s : Schema) (r : Rule) (fn : String) (argc : Nat) (d : Diag)
+    (h : d ∈ callDiags p s r fn argc) (he : isErrorCode d.code = true) :
+    ¬ CallWF s fn ∧ d.line = r.line ∧
+      ((d.code = LibErrors.UNDEFINED_FUNC ∧ d.args = [sArg fn]) ∨ (d.code = LibErrors.MISSING_SELF ∧ d.args = [sArg r.label])) :=
+  call_blames p s r fn argc d h he
+
+open Resolve in
+/-- UNKNOWN_ATTR_IN_ENTITY quotes (attribute, entity) for a `SELF.a` the entity neither declares nor inherits -/
+theorem C20_blame_unknown_attribute (p : String) (env : Env) (s : Schema) (fuel : Nat) (e : Entity) (r : Rule) (an : String)
+    (d : Diag) (h : d ∈ ruleItemDiags p env s fuel e r (.selfAttr an)) :
+    ¬ AttrVisible s fuel e an ∧ d.line = r.line ∧ d.args = [sArg an, sArg e.name] :=
+  selfAttr_blames p env s fuel e r an d h
+
+open Resolve in
+/-- UNDEFINED quotes a bare identifier that is no attribute in reach and that the schema scope does not know (entity-level
+    expressions: domain rules, DERIVE, bounds) -/
+theorem C20_blame_undefined_reference (p : String) (env : Env) (s : Schema) (fuel : Nat) (e : Entity) (r : Rule) (an : String)
+    (d : Diag) (h : d ∈ ruleItemDiags p env s fuel e r (.bareAttr an)) (he : isErrorCode d.code = true) :
+    ¬ BareVisible s fuel e an ∧ d.line = r.line ∧
+      ((d.code = LibErrors.UNDEFINED ∧ d.args = [sArg an] ∧ ¬ GlobalVisible env s an) ∨
+       (d.code = LibErrors.MISSING_SELF ∧ d.args = [sArg r.label] ∧ r.isWhere = true)) :=
+  bareAttr_blames p env s fuel e r an d h he
+
+open Resolve in
+/-- the same inside function bodies, global rules and constants -/
+theorem C20_blame_undefined_reference_in_algorithm (p : String) (env : Env) (s : Schema) (f : Func) (r : Rule) (n : String)
+    (d : Diag) (h : d ∈ algItemDiags p env s f r (.bareAttr n)) (he : isErrorCode d.code = true) :
+    n ∉ f.locals ∧ ¬ GlobalVisible env s n ∧ d.line = r.line ∧ d.code = LibErrors.UNDEFINED ∧ d.args = [sArg n] :=
+  algRef_blames p env s f r n d h he
+
+open Resolve in
+/-- UNDEFINED_SCHEMA quotes the clause's schema name, which no schema of the run has -/
+theorem C20_blame_undefined_schema (f : File) (s : Schema) (d : Diag) (h : d ∈ pass1 f s) :
+    ∃ i ∈ s.ifaces, (findSchema f i.schema).isSome = false ∧ d.line = i.line ∧ d.args = [sArg i.schema] ∧
+      d.code = LibErrors.UNDEFINED_SCHEMA :=
+  pass1_blames f s d h
+
+open Resolve in
+/-- REF_NONEXISTENT quotes (item, source schema) for an item that schema does not hand out -/
+theorem C20_blame_nonexistent_import (f : File) (fb : Bool) (s : Schema) (d : Diag) (h : d ∈ pass2 f fb s)
+    (hc : d.code = LibErrors.REF_NONEXISTENT) :
+    ∃ x ∈ useItems s ++ refItems s, exportOf f fb (processedBefore f s.name) (importFuel f) x.1 x.2.old = none ∧
+      d.line = x.2.line ∧ d.args = [sArg x.2.old, sArg x.1] :=
+  pass2_blames f fb s d h hc
+
+open Resolve in
+/-- OVERLOADED_ATTR quotes (attribute, supertype) where the supertype really has an attribute of that name -/
+theorem C20_blame_overloaded_attribute (p : String) (s : Schema) (fuel : Nat) (e : Entity) (d : Diag)
+    (h : d ∈ overloadDiags p s fuel e) :
+    ∃ a ∈ e.attrs, a.redeclOf = none ∧ ∃ sup ∈ supersOf s e, namedAttr s a.name fuel sup = some true ∧
+      d.line = a.line ∧ d.args = [sArg a.name, sArg sup] :=
+  overload_blames p s fuel e d h
+
+open Resolve in
+/-- REDECL_NO_SUCH_SUPERTYPE / REDECL_NO_SUCH_ATTR quote the two names of an ill-formed redeclaration -/
+theorem C20_blame_redeclaration (p : String) (s : Schema) (fuel : Nat) (e : Entity) (d : Diag) (h : d ∈ redeclDiags p s fuel e) :
+    ∃ a ∈ e.attrs, ∃ sup, a.redeclOf = some sup ∧ d.line = a.line ∧
+      ((d.code = LibErrors.REDECL_NO_SUCH_SUPERTYPE ∧ d.args = [sArg sup, sArg a.name] ∧
+          (sup = e.name ∨ isAncestor s sup fuel e.name = false)) ∨
+       (d.code = LibErrors.REDECL_NO_SUCH_ATTR ∧ d.args = [sArg a.name, sArg sup] ∧
+          ∃ se, findEntity s sup = some se ∧ se.attrs.any (·.name = a.name) = false)) :=
+  redecl_blames p s fuel e d h
+
+open Resolve in
+/-- INVERSE_BAD_ATTR / INVERSE_BAD_ENTITY quote the FOR name of a clause that really is ill formed -/
+theorem C20_blame_inverse (p : String) (s : Schema) (a : Attr) (hasAttr : String → String → Bool) (d : Diag)
+    (h : d ∈ inverseDiags p s a hasAttr) :
+    ¬ InverseWF s hasAttr a ∧ ∃ attrName l, a.inverseFor = some (attrName, l) ∧ d.args.head? = some (sArg attrName) ∧
+      (d.line = l ∨ d.line = a.line) :=
+  inverse_blames p s a hasAttr d h
 
 end StepModel.Express.C20
